@@ -46,11 +46,22 @@ pub fn fam_invite_tpi(v: u8, f: &mut dyn FnMut(Case)) {
         for target_m in cur {
             for sender_m in [Some("join"), None] {
                 for invite_level in [0, 60] {
+                  // a user redeeming a third-party invite addressed to themself: sender == state_key
+                  for self_invite in [false, true] {
+                    if self_invite && (sender_m.is_none() || invite_level == 60) {
+                        continue;
+                    }
+                    let target: &str = if self_invite { SENDER } else { TARGET };
                     let mut room = Room::new(v);
-                    room.join_rule(Some(&json!("invite"))).member(SENDER, sender_m).member(TARGET, target_m);
+                    room.join_rule(Some(&json!("invite")));
+                    if self_invite {
+                        room.member(SENDER, target_m);
+                    } else {
+                        room.member(SENDER, sender_m).member(target, target_m);
+                    }
                     room.pl(Some(&Pl::default().user(SENDER, Some(json!(50))).user(CREATOR, Some(json!(100))).field("invite", Some(json!(invite_level)))));
                     let mut valid = false;
-                    let mut signed = signed_object(&kp1, Some(TARGET), Some(json!("tok")));
+                    let mut signed = signed_object(&kp1, Some(target), Some(json!("tok")));
                     let mut tpi_state_sender = SENDER;
                     let mut tpi_state_key = "tok";
                     let mut tpi_content = json!({"display_name": "x", "key_validity_url": "https://x", "public_key": public_key_b64(&kp1)});
@@ -91,19 +102,20 @@ pub fn fam_invite_tpi(v: u8, f: &mut dyn FnMut(Case)) {
                     tpi = json!({"display_name": "x", "signed": signed});
                     match shape {
                         4 => tpi = json!({"display_name": "x"}),
-                        5 => tpi["signed"] = signed_object(&kp1, Some(TARGET), None),
+                        5 => tpi["signed"] = signed_object(&kp1, Some(target), None),
                         6 => tpi["signed"] = signed_object(&kp1, None, Some(json!("tok"))),
                         7 => tpi["signed"] = signed_object(&kp1, Some(BYSTANDER), Some(json!("tok"))),
                         12 => tpi = json!("a string"),
                         13 => tpi = Value::Null,
-                        15 => tpi["signed"] = signed_object(&kp1, Some(TARGET), Some(json!(5))),
+                        15 => tpi["signed"] = signed_object(&kp1, Some(target), Some(json!(5))),
                         _ => {}
                     }
                     room.put(ev("$tpi:s1", tpi_state_sender, "m.room.third_party_invite", Some(tpi_state_key), tpi_content));
-                    let mut e: Ev = ev("$new:s1", SENDER, "m.room.member", Some(TARGET), json!({"membership": "invite", "third_party_invite": tpi}));
+                    let mut e: Ev = ev("$new:s1", SENDER, "m.room.member", Some(target), json!({"membership": "invite", "third_party_invite": tpi}));
                     fill_auth_events(v, &mut e, &room.state);
                     e.prev_events = vec!["$prev:s1".to_owned()];
                     f(Case { v, family: "member-invite-tpi", ev: e, state: room.state.clone(), tpi_sig_valid: valid });
+                  }
                 }
             }
         }
